@@ -82,6 +82,89 @@ func runC09(c *eng.Ctx) {
 	}
 	c.Expect("SIB-expiry", 3)
 
+	// ABS-expiry: the read path's decision table over {has TTL, TTL is zero, has a last-modified date, still within
+	// the TTL}: after the record was read, the blob is reported as gone exactly for (TTL, non-zero, dated, past the
+	// TTL) and served in every other case
+	if rd := c.NeedFunc("weed/storage", "(*Volume).readNeedle"); rd != nil {
+		reads := eng.Find(rd, eng.PlainCallTo("needle.Needle).ReadData"))
+		if len(reads) == 0 {
+			c.Undecided("ABS-expiry", eng.FuncName(rd), rd.Pos(), "record read not found")
+		} else {
+			type pt struct{ hasTtl, zero, dated, within bool }
+			outcome := func(p pt) string {
+				oracle := func(v ssa.Value) (bool, bool) {
+					if call, ok := v.(*ssa.Call); ok {
+						switch {
+						case eng.CalleeIs(call, "needle.Needle).HasTtl"):
+							return p.hasTtl, true
+						case eng.CalleeIs(call, "needle.Needle).HasLastModifiedDate"):
+							return p.dated, true
+						case eng.CalleeIs(call, "time.Time).Before"):
+							return p.within, true
+						case eng.CalleeIs(call, "time.Time).After"):
+							return !p.within, true
+						}
+					}
+					if b, ok := v.(*ssa.BinOp); ok && isZero(b.Y) && eng.MentionsCall(b.X, "needle.TTL).Minutes") {
+						switch b.Op {
+						case token.EQL:
+							return p.zero, true
+						case token.NEQ, token.GTR:
+							return !p.zero, true
+						}
+					}
+					return false, false
+				}
+				cut := eng.CutUnder(rd, oracle)
+				served, gone := false, false
+				last := reads[0]
+				for _, in := range eng.ReachableInstrs(eng.After(last), cut) {
+					r, ok := in.(*ssa.Return)
+					if !ok || r.Block() == rd.Recover || !eng.Dominates(last, r) {
+						continue
+					}
+					for _, ev := range eng.Resolve(r.Results[1]) {
+						switch {
+						case ev == nil || ev == eng.Zero || eng.IsNilConst(ev):
+							served = true
+						default:
+							if u, isU := ev.(*ssa.UnOp); isU {
+								if g, isG := u.X.(*ssa.Global); isG && g.Name() == "ErrorNotFound" {
+									gone = true
+								}
+							}
+						}
+					}
+				}
+				switch {
+				case served && gone:
+					return "both"
+				case served:
+					return "served"
+				case gone:
+					return "gone"
+				}
+				return "neither"
+			}
+			for _, hasTtl := range []bool{false, true} {
+				for _, zero := range []bool{false, true} {
+					for _, dated := range []bool{false, true} {
+						for _, within := range []bool{false, true} {
+							p := pt{hasTtl, zero, dated, within}
+							want := "served"
+							if hasTtl && !zero && dated && !within {
+								want = "gone"
+							}
+							got := outcome(p)
+							c.Ob("ABS-expiry", fmt.Sprintf("%s ttl=%v zero=%v dated=%v within=%v", eng.FuncName(rd), hasTtl, zero, dated, within), got == want, rd.Pos(), fmt.Sprintf("after a successful record read the blob is %s, required: %s", got, want))
+						}
+					}
+				}
+			}
+		}
+	}
+	c.Expect("ABS-expiry", 16)
+
 	// ---------------------------------------------------------------- (2) MONO-last-modified
 	n := 0
 	for _, fn := range P.SrcFuncs("weed/storage") {
